@@ -9,7 +9,7 @@ FileKinds == {Fk("ok", 1, FALSE), Fk("ok", 2, FALSE), Fk("ok", 1, TRUE), Fk("ok"
               Fk("missing", 0, FALSE),
               Fk("streamerr", 0, FALSE), Fk("streamerr", 2, FALSE), Fk("streamerr", 1, TRUE),
               Fk("abort", 1, FALSE), Fk("wrapfail", 0, FALSE), Fk("tempfail", 0, FALSE),
-              Fk("writefail", 2, FALSE)}
+              Fk("writefail", 2, FALSE), Fk("writefail", 2, TRUE)}
 FileLists == UNION {[1..l -> FileKinds] : l \in 1..MaxFiles}
 MCScenarios == {[files |-> fl, prepipe |-> FALSE] : fl \in FileLists}
                \cup {[files |-> fl, prepipe |-> TRUE] : fl \in {x \in FileLists : \A i \in 1..Len(x) : x[i].kind = "ok"}}
